@@ -72,6 +72,7 @@ type Case struct {
 	Config   Config `json:"config"`
 	Alt      Config `json:"altConfig"`
 	Ops      []Op   `json:"ops"`
+	RmProbe  bool   `json:"removeProbe,omitempty"` // a plain call is started by another goroutine at the moment the library hands a connection to RemoveSubConn
 	Failure  *Fail  `json:"failure,omitempty"`
 }
 
@@ -242,6 +243,8 @@ type fcc struct {
 	pubs    []balancer.State
 	refused int
 	updAddr int
+	// called inside RemoveSubConn (the library is in the middle of a take-over then)
+	onRemove func(balancer.SubConn)
 }
 
 func (c *fcc) reset() { c.created, c.removed, c.pubs, c.refused, c.updAddr = nil, nil, nil, 0, 0 }
@@ -255,7 +258,12 @@ func (c *fcc) NewSubConn(a []resolver.Address, o balancer.NewSubConnOptions) (ba
 	c.created = append(c.created, sc)
 	return sc, nil
 }
-func (c *fcc) RemoveSubConn(sc balancer.SubConn) { c.removed = append(c.removed, sc) }
+func (c *fcc) RemoveSubConn(sc balancer.SubConn) {
+	c.removed = append(c.removed, sc)
+	if c.onRemove != nil {
+		c.onRemove(sc)
+	}
+}
 func (c *fcc) UpdateAddresses(sc balancer.SubConn, a []resolver.Address) {
 	c.updAddr++
 	if f, ok := sc.(*fsc); ok {
